@@ -208,6 +208,7 @@ func tail(s []string, n int) []string {
 
 func c11Scenarios(tier string) []Scenario {
 	var out []Scenario
+	out = append(out, heldAcrossClunkScenario("C11"))
 	add := func(p c11Params) {
 		idx := make([]int, len(p.Parked))
 		for i := range idx {
@@ -257,7 +258,7 @@ func c11Scenarios(tier string) []Scenario {
 func init() {
 	register(&Property{ID: "C11", Level: "model_checking",
 		Technique: "stateless model checking of the real server under a controlled scheduler; leaks decided at the final quiescent state",
-		Rule:      "every schedule with at most P preemptions from the disconnect onwards, per scenario: every prefix of a history that leaves fids attached/walked/open/created/clunked x set of requests parked in the implementation x every release order x disconnect at a frame boundary / mid-frame / right after a request / while the server's writer is blocked inside Write (client stopped reading) x Maxpend 0/2 x dialect, with a bystander connection; distinct = distinct per-object operation orders",
+		Rule:      "every schedule with at most P preemptions from the disconnect onwards, per scenario: every prefix of a history that leaves fids attached/walked/open/created/clunked x set of requests parked in the implementation x every release order x disconnect at a frame boundary / mid-frame / right after a request / while the server's writer is blocked inside Write (client stopped reading) x Maxpend 0/2 x dialect, with a bystander connection; plus sequential histories in which a request is held on a fid across its clunk / remove and the re-binding of its number, then completes, then the client disconnects; distinct = distinct per-object operation orders",
 		Assumptions: []string{"code between two synchronisation operations is atomic (race-free executions)", "a client disconnect is the client end closing: the server reads EOF after draining, its writes fail", "the Ufs file-descriptor clause is checked separately by the Ufs scenarios"},
 		Scenarios:   c11Scenarios, QuickS: 180, ThoroughS: 1500})
 }
